@@ -173,7 +173,7 @@ func main() {
 			msg := lib.Catch(func() { res = f(a, b) })
 			if msg != "" {
 				out = "!notint"
-				if msg == "runtime error: integer divide by zero" {
+				if msg == "runtime error: integer divide by zero" || msg == "modulus by zero" {
 					out = "!div0"
 				}
 				t.Count("err:" + out)
